@@ -373,19 +373,23 @@ def fam_reversed_after_query(R, n):
         p.point(T)
         r = p.reversed()
         fresh = Path(*list(r))
-        return segs, T, r.T2t(T), fresh.T2t(T), r.length(), fresh.length()
+        # the original must be untouched by reversed() (no cached list shared with the copy)
+        orig_after, orig_fresh = p.T2t(T), Path(*segs).T2t(T)
+        return segs, T, r.T2t(T), fresh.T2t(T), r.length(), fresh.length(), orig_after, orig_fresh
 
     for ctx, (kind, val) in explore(run, maxpaths=2000):
         R.path(ctx)
         if kind != 'ok':
             R.unexpected(ctx, 'unexpected %s %r' % (kind, val))
             continue
-        segs, T, (k1, t1), (k2, t2), l1, l2 = val
+        segs, T, (k1, t1), (k2, t2), l1, l2, (k3, t3), (k4, t4) = val
 
         def cex(m):
             ls = [mval(m, s_.l) for s_ in segs]
             return {'cls': 'Path.reversed() of a queried path', 'inputs': {'lengths': ls, 'T': mval(m, T)}, 'script': REPLAY_REVQ % (ls, mval(m, T))}
         R.ob('n%d.reversed-after-query' % n, ctx, z3.And(z3.BoolVal(k1 == k2), req(t1, t2), req(l1, l2)), cex=cex,
+             robust=[z3.And(*[z3.And(s_.l.e >= 1, s_.l.e <= 9) for s_ in segs])])
+        R.ob('n%d.original-unchanged-by-reversed' % n, ctx, z3.And(z3.BoolVal(k3 == k4), req(t3, t4)), cex=cex,
              robust=[z3.And(*[z3.And(s_.l.e >= 1, s_.l.e <= 9) for s_ in segs])])
         if R.paths % 10 == 1:
             R.sample({'n': n, 'segment': k1})
@@ -399,8 +403,10 @@ for i, l in enumerate(ls):
 p = Path(*segs)
 p.length(); p.point(T)
 r = p.reversed()
+q = Path(*[Line(s.start, s.end) for s in segs])          # never queried, never reversed
 for TT in (T, 0.1, 0.35, 0.6, 0.9):
-    if abs(r.point(TT) - p.point(1 - TT)) > 1e-9 * (1 + x): REPRODUCED('after length(): reversed().point(%%r) = %%r but point(%%r) = %%r (segment lengths %%r)' %% (TT, r.point(TT), 1 - TT, p.point(1 - TT), ls))
+    if abs(r.point(TT) - q.point(1 - TT)) > 1e-9 * (1 + x): REPRODUCED('after length(): reversed().point(%%r) = %%r but point(%%r) = %%r (segment lengths %%r)' %% (TT, r.point(TT), 1 - TT, q.point(1 - TT), ls))
+    if abs(p.point(TT) - q.point(TT)) > 1e-9 * (1 + x): REPRODUCED('reversed() changed the original: point(%%r) = %%r, was %%r (segment lengths %%r)' %% (TT, p.point(TT), q.point(TT), ls))
 '''
 
 
